@@ -44,13 +44,15 @@ func cliEvery(tier string) int {
 var Check = &run.Check{
 	ID:    "C20",
 	Level: "exploration",
-	Rule: "case = one generated file (+0-2 sibling files in the same directory in 1/4 of the cases); even index: Python module (imports `import a`, `import a.b as c`, `import a, b`, " +
-		"`from a import b, c`, `from a import (b)`, `from . import x`, `from ..p import x`, `import *`; 0-2 decorated classes with 0-3 methods, decorated/async functions, nested defs up to depth 2, " +
-		"indent 2/4/tab, CRLF, no final newline; kept within 30 lexer events (lines+INDENT+DEDENT) except 1/40 'large' modules) — every module first has to pass coca's own Python parser with a counting error listener, rejects are inconclusive; " +
-		"odd index: Go file accepted by go/parser (0-5 imports in 3 layouts, 1-6 structs with 0-5 field lines incl. `a, b T`, tags, embedded fields; 0-3 interfaces; grouped or single type declarations; " +
-		"methods on value/pointer/unnamed receivers placed after their type; 0-4 free functions; bodies of package-qualified and receiver call statements, unqualified calls, defer, assignments, returns). " +
-		"Observed: pyapp.PythonIdentApp.Analysis, goapp.GoIdentApp.Analysis or ast_go.CocagoParser.ProcessString per file, analysis.CommonAnalysis on the directory, and for every Nth case `coca-python analysis` / `coca-golang analysis` (pydeps.json / godeps.json). " +
-		"non-trivial = Python: a class with a method + a decorator + an import; Go: >= 2 type declarations + a method + an asserted call statement; distinct = hash of the structural shape (kinds, counts, layout; no names)",
+	Rule: "case = one generated file (+1-2 sibling files in the same directory in 1/4 of the cases; ids make every planted name unique within the case); " +
+		"even index: Python module (imports `import a`, `import a.b.c`, `import a.b as c`, `import a, b`, `from a import b, c`, `from a import b as c`, `from a import (b, c,)` on one or several lines, `from . import x`, `from ..p import x`, `from a import *`; " +
+		"0-2 decorated classes with 0-3 decorated methods, decorated/async functions, nested defs up to depth 2, class attributes, docstrings and strings that look like declarations, comments, multi-line bracketed statements, indent 2/4/tab, CRLF, no final newline). " +
+		"Modules stay within 30 lexer events (logical lines + INDENT + DEDENT); 1 module in 40 is 'large' (median 69, up to ~300 events; either structured or 33-70 one-line declarations) and is parsed only in fresh child processes. " +
+		"Every module first has to pass coca's own Python parser (languages/python + counting error listener); a reject is inconclusive. " +
+		"odd index: Go file accepted by go/parser (0-5 imports in 3 layouts, aliases, `_`; 1-6 structs with 0-5 field lines incl. `a, b T`, tags, embedded fields, pointer/slice/map/func/chan/qualified types; 0-3 interfaces incl. empty and embedding ones; single or grouped type declarations; " +
+		"methods on value/pointer/unnamed receivers placed after their type; 0-4 free functions incl. `a, b T` and variadic parameters, named results; bodies of package-qualified and receiver/parameter call statements, unqualified calls, defer, := and = assignments, returns). " +
+		"Observed: pyapp.PythonIdentApp.Analysis, goapp.GoIdentApp.Analysis or ast_go.CocagoParser.ProcessString per file; analysis.CommonAnalysis on the directory; for every 4th (quick) / 8th (thorough) case of each language the real mains `coca-python analysis -p` / `coca-golang analysis -p` (coca_reporter/pydeps.json, godeps.json). " +
+		"non-trivial = Python: a class with a method + a decorator + an import; Go: >= 2 type declarations + a method + an asserted call statement; distinct = hash of the structural shape of the primary file (kinds, counts, order, layout; no names) and the number of files",
 	Assumptions: []string{
 		"every planted name is unique within a case (ids), so one observation matches at most one planted event",
 		"methods are declared after their receiver type in the same file (methods before the type are not generated)",
@@ -58,7 +60,8 @@ var Check = &run.Check{
 		"only calls written as a statement with a package qualifier or a receiver/parameter variable are asserted; deferred, unqualified, right-hand-side and returned calls are generated but free",
 		"an import's own name is its path (Go: as written or with '/' replaced by '.', the front-end's convention) resp. its dotted module name (Python); aliases are not asserted except that a from-imported name must be listed as the name, the alias or `name as alias`",
 		"flattened model (CommonAnalysis, *deps.json): functions are asserted only when their name starts with an upper-case letter (the flattening keeps those by construction); parameters/imports have no place there",
-		"a Python module that coca's own parser rejects (syntax errors > 0) gives no verdict (DESIGN §2), even though the generator only writes valid Python",
+		"a Python module that coca's own parser rejects (syntax errors > 0) gives no verdict (DESIGN §2), even though the generator only writes valid Python (checked against CPython's ast.parse while building the generator); rejected modules are counted (py_modules_rejected_by_coca_parser)",
+		"coca's Python lexer helper keeps its token queue in package-level variables: modules that can make the queue grow (> 31 lexer events) are parsed in fresh child processes only (acceptance filter and Analysis in separate children, like the real coca-python process), so that a case never depends on what the worker parsed before; mismatches of such cases carry the suffix @case-with-module-over-31-lexer-events",
 	},
 	Cases: cases,
 	Floor: func(tier string) int {
@@ -303,7 +306,7 @@ func pyCase(c *run.Ctx, o *run.Outcome, useCLI bool) {
 		name := filepath.Join(sub, fmt.Sprintf("%s_%d.py", r.Pick([]string{"views", "models", "service", "util", "handlers"}), i))
 		mods = append(mods, gopygen.GenPy(r.Fork(), name, large && i == 0, i*1000))
 	}
-	// names are unique per module (ids restart per file): make them unique per case by checking for clashes
+	// ids are offset per file (i*1000), so names cannot clash between the files of a case; kept as a guard
 	mods = dropClashingPy(mods)
 	o.Count("py_cases", 1)
 	if large {
